@@ -4,7 +4,7 @@
    by the paired-run search of harness/c10.py.
    Only statements: every proof is [exact <lemma>], followed by Print Assumptions. *)
 From Coq Require Import ZArith List Bool.
-From SB3V Require Import Model.Seeding Proofs.SeedingProofs.
+From SB3V Require Import Gen.Frag_seed Model.Seeding Proofs.SeedingProofs Proofs.SeedingFragProofs.
 Import ListNotations.
 Local Open Scope Z_scope.
 
@@ -59,3 +59,13 @@ Example C10_scan_example :
   scan_ok (run (init 2) (setup (Some 3) ++ [Reset])) [1; 5] = false /\
   scan_ok (run (init 2) (setup None ++ [Reset])) [1] = false.
 Proof. repeat split; reflexivity. Qed.
+
+(* ---------------- regenerated fragments of set_random_seed / VecEnv.seed ---------------- *)
+(* the argument of each seeding call is the user's seed; sub-env idx gets seed + idx *)
+Theorem C10_fragments_partial :
+  (forall s, setup (Some s) = [SetRandomSeed (seed_py_arg (seed_global_arg s)); ActionSpaceSeed (seed_aspace_arg s); EnvSeed (seed_env_arg s)] /\
+             seed_np_arg (seed_global_arg s) = seed_py_arg (seed_global_arg s) /\ seed_torch_arg (seed_global_arg s) = seed_py_arg (seed_global_arg s)) /\
+  (forall s, seed_py_arg s = s /\ seed_np_arg s = s /\ seed_torch_arg s = s /\ seed_global_arg s = s /\ seed_aspace_arg s = s /\ seed_env_arg s = s) /\
+  (forall s n i, (i < n)%nat -> nth_error (seeds_from s n) i = Some (Some (seed_vecenv_elt s (Z.of_nat i)))).
+Proof. exact (conj frag_setup (conj frag_seed_args frag_vecenv_seed)). Qed.
+Print Assumptions C10_fragments_partial.
